@@ -655,6 +655,13 @@ func Run(seed int64, n int, outDir string) error {
 		for _, f := range w.followUp(m, c.req, resp) {
 			doHead(f.key, f.req, f.tag)
 		}
+		// put the parameters back (through the real message) and use the module once more
+		if back := w.restoreParams(m); back != nil {
+			doHead(c.key, back, "follow:"+m.Module+"."+m.Name+"/restore")
+			for _, f := range w.moduleBattery(m, "restored", 1) {
+				doHead(f.key, f.req, f.tag)
+			}
+		}
 		if r, ok := resp.(*lptypes.MsgCreatePoolResponse); ok && r != nil {
 			for _, f := range w.poolTail(m, r.Id) {
 				doHead(f.key, f.req, f.tag)
@@ -689,6 +696,10 @@ func Run(seed int64, n int, outDir string) error {
 	consts := boundConstants()
 	st.Extra["bound_constants"] = len(consts)
 	for _, c := range w.boundProbes(boundGrid(consts)) {
+		doScenario(c)
+	}
+	// garbage-but-acceptable bytes / strings in every create / update message
+	for _, c := range w.blobProbes() {
 		doScenario(c)
 	}
 	for _, m := range w.ms {
